@@ -31,10 +31,20 @@ static void build2(void) {
     p->n = n; p->various = v; p->res = 1; p->W = W; p->K = tier ? 2 : (n == 2 ? 2 : 1);
   }
 }
-static int nprogs(int tier) { build2(); return NP[tier]; }
-static void config(int tier, int prog, int * W, int * K) { build2(); *W = P[tier][prog].W; *K = P[tier][prog].K; }
+/* the index idiom: args == NULL with a non-zero stride, so that item i receives (void *)(i * arg_stride); various = 4 (many) / 5 (various) */
+static void build3(void) {
+  static int built3; if (built3) return; built3 = 1; build2();
+  for (int tier = 0; tier < 2; tier++) for (int W = 1; W <= 2; W++) for (int v = 4; v <= 5; v++) for (int n = 1; n <= (tier ? 5 : 3); n++) for (int stride = 1; stride <= 8; stride += 7) {
+    if (NP[tier] >= MAXP) continue;
+    prog_t * p = &P[tier][NP[tier]++]; memset(p, 0, sizeof *p);
+    p->n = n; p->various = v; p->res = 1; p->layout = stride; p->W = W; p->K = tier ? 2 : 1;
+  }
+}
+static int nprogs(int tier) { build3(); return NP[tier]; }
+static void config(int tier, int prog, int * W, int * K) { build3(); *W = P[tier][prog].W; *K = P[tier][prog].K; }
 static void describe(int tier, int prog, char * b, size_t n) {
-  build2(); prog_t * p = &P[tier][prog];
+  build3(); prog_t * p = &P[tier][prog];
+  if (p->various >= 4) { snprintf(b, n, "create_join_%s n=%d with args == NULL and arg_stride=%d (item i receives (void *)(i*stride))", p->various == 5 ? "various" : "many", p->n, p->layout); return; }
   if (p->various >= 2) { snprintf(b, n, "%s bulk calls with different functions, %d items each", p->various == 2 ? "nested" : "two concurrent", p->n); return; }
   snprintf(b, n, "create_join_%s n=%d results=%s ids=%s attrs=%s layout=%s", p->various ? "various" : "many", p->n, p->res ? "given" : "NULL", p->ids ? "given" : "NULL", p->attrs ? "per-item" : "NULL",
 	   p->layout == 0 ? "packed" : p->layout == 1 ? "stride=2x" : "struct-embedded");
@@ -80,9 +90,36 @@ static void run_overlap(void) {
   mv_obs("overlap %d n=%d ok", cur->various, n);
   mv_finish();
 }
+/* args == NULL: the sequential loop calls f_i((char *)0 + i * arg_stride) */
+static volatile int nb_calls[8];
+static void * nb_common(void * a, int which) {
+  long st = cur->layout, idx = (long)a / st;
+  MV_CHECK((long)a % st == 0 && idx >= 0 && idx < cur->n, "args == NULL, arg_stride=%ld: a function was called with %p, which is not i*arg_stride for any i < %d", st, a, cur->n);
+  if (cur->various == 5) MV_CHECK(which == idx % 3, "item %ld executed function f%d instead of f%ld", idx, which, idx % 3);
+  nb_calls[idx]++;
+  return (void *)(9000 + idx * 10 + which);
+}
+static void * nb0(void * a) { return nb_common(a, 0); }
+static void * nb1(void * a) { return nb_common(a, 1); }
+static void * nb2(void * a) { return nb_common(a, 2); }
+static void run_nullbase(void) {
+  int n = cur->n; static myth_func_t fns[8]; static void * res[8];
+  for (int i = 0; i < 8; i++) { fns[i] = i % 3 == 0 ? nb0 : i % 3 == 1 ? nb1 : nb2; res[i] = (void *)0x1111; }
+  int r;
+  if (cur->various == 5) r = myth_create_join_various_ex(0, 0, fns, 0, res, 0, 0, sizeof fns[0], cur->layout, sizeof res[0], n);
+  else r = myth_create_join_many_ex(0, 0, nb0, 0, res, 0, 0, cur->layout, sizeof res[0], n);
+  MV_CHECK(r == 0, "bulk helper returned %d", r);
+  for (int i = 0; i < 8; i++) {
+    MV_CHECK(nb_calls[i] == (i < n ? 1 : 0), "args == NULL: item %d was executed %d time(s), the sequential loop executes it %d time(s) (n=%d)", i, nb_calls[i], i < n ? 1 : 0, n);
+    MV_CHECK(res[i] == (i < n ? (void *)(long)(9000 + i * 10 + (cur->various == 5 ? i % 3 : 0)) : (void *)0x1111), "args == NULL: result slot %d holds %p", i, res[i]);
+  }
+  mv_obs("nullbase %d n=%d ok", cur->various, n);
+  mv_finish();
+}
 static void run(int tier, int prog) {
-  build2(); cur = &P[tier][prog];
+  build3(); cur = &P[tier][prog];
   mv_start(cur->W);
+  if (cur->various >= 4) { run_nullbase(); return; }
   if (cur->various >= 2) { run_overlap(); return; }
   int n = cur->n;
   /* storage: one array of item_t (struct-embedded), or separate padded arrays */
